@@ -127,8 +127,11 @@ class Ctx:
         problems = []
         if len(call.args) != 1 or not self._is_graph(call.args[0]):
             problems.append(f"the first argument `{norm(call.args[0], 40) if call.args else ''}` is not the wrapped networkx graph")
-        if len(star) != 1 or not M.is_options(star[0].value):
-            problems.append("the caller's options are not forwarded as **kwargs")
+        unsure_fw = None
+        if not star:
+            problems.append("the caller's options are not forwarded (no **kwargs in the backend call)")
+        elif len(star) != 1 or not M.is_options(star[0].value):
+            unsure_fw = f"`**{norm(star[0].value, 40)}` is not recognised as the caller's options"
         forced = [k.arg for k in named if k.arg not in ("labels", "pos")]
         if forced:
             problems.append(f"options {forced} are fixed by draw() itself")
@@ -136,6 +139,8 @@ class Ctx:
             problems.append("draw_networkx is not reached on every path that returns normally")
         if problems:
             self.bad("C17.R5", "hand-off", "; ".join(problems), call)
+        elif unsure_fw:
+            self.unsure("C17.R5", "hand-off", unsure_fw, call)
         else:
             self.ok("C17.R5", "hand-off", f"draw_networkx({M.G}, **{M.kw}) on every path", call)
         # ---- what draw() removes from / adds to the options
@@ -147,6 +152,12 @@ class Ctx:
                 odd.append(f"`{k.arg}=` is passed as an explicit keyword of draw_networkx")
         if len(M.binds.get(M.kw, [])) > 1:
             odd.append(f"`{M.kw}` is re-bound")
+        for name, bs in M.binds.items():
+            if len(bs) == 1 and bs[0].kind == "assign" and bs[0].value is not None:
+                fk = M.filtered_options(bs[0].value)
+                if fk is not None and M.is_options(bs[0].value.generators[0].iter.func.value):
+                    for k in fk:
+                        consumed.setdefault(k, []).append(bs[0].stmt)
         for n in _walk_own(M.fn.body):
             if isinstance(n, ast.Call) and isinstance(n.func, ast.Attribute) and M.is_options(n.func.value):
                 a = n.func.attr
@@ -226,6 +237,7 @@ class Ctx:
             if opt in consumed:
                 cf = [self._presence_formula(n) for n in consumed[opt]]
                 cf = [TRUE if (x is None and len(getattr(n, "args", [])) > 1) else x for x, n in zip(cf, consumed[opt])]
+                cf = [TRUE if isinstance(n, ast.stmt) and x is not None and x == TRUE else x for x, n in zip(cf, consumed[opt])]
                 if all(x is not None for x in cf) and not implies(present, f_or(cf)):
                     self.bad("C17.R5", f"{opt} consumed", f"'{opt}' stays in the options on some path on which it was given: the backend receives an option it does not know", consumed[opt][0], kind="dominance")
             if key_ == "labels":
